@@ -173,3 +173,8 @@ Definition agree_owned (c : nat) (chunks : list (list byte)) (gs : list gout)
            (observed : list (nat * nat * option (list byte))) : bool :=
   all2 (fun s '(l, cp, bs) => Nat.eqb (get_len s) l && Nat.eqb (cap s) cp && opt_bytes_eqb (get_bytes s) bs)
        (run_trace (owned_init c) chunks gs) observed.
+
+(* C++ binding (e2e): std::string returned by a generated method that wrote [chunks] *)
+Definition agree_cpp (chunks : list (list byte)) (observed : list byte) : bool :=
+  let s := fst (run (owned_init 0) chunks (cpp_grow_script (length chunks))) in
+  list_N_eqb (cpp_string_after_flush s) observed && negb (failed s).
